@@ -182,9 +182,9 @@ def model_value(model, v):
 def unjson(v):
     if isinstance(v, dict):
         if "__bytes__" in v:
-            return bytes(v["__bytes__"])
+            return bytes(x % 256 for x in v["__bytes__"])
         if "__bytearray__" in v:
-            return bytearray(v["__bytearray__"])
+            return bytearray(x % 256 for x in v["__bytearray__"])
         if "__tuple__" in v:
             return tuple(v["__tuple__"])
         if "__iter__" in v:
